@@ -826,7 +826,7 @@ class Interp:
     def read_field(self, r, cls: Optional[str], attr: str) -> SV:
         st = self.st
         T = self.reg.field_type(cls, attr) if cls else None
-        e = st.F(attr)[r]
+        e = self.peel(st.F(attr), r)
         if T is None:
             if cls and cls in self.reg.fields:
                 raise PyRaise(AttributeError, (), f'{cls}.{attr}')
@@ -974,9 +974,43 @@ class Interp:
             return self.seg_length(seg)
         raise Unsupported(seg[0])
 
+    def fresh_offset(self, r):
+        d = z3.simplify(r - self.st.alloc0)
+        return d.as_long() if z3.is_int_value(d) else None
+
+    def is_old_term(self, r) -> bool:
+        """Syntactic sufficient condition for `r` denoting an object of the pre-state: the term
+        mentions neither the allocation base nor a havocked/fresh symbol."""
+        i = r.get_id()
+        c = _OLD.get(i)
+        if c is not None:
+            return c[1]
+        txt = r.sexpr()
+        res = ('alloc0' not in txt) and ('!' not in txt)
+        _OLD[i] = (r, res)
+        return res
+
+    def peel(self, arr, r):
+        """arr[r] with stores at provably different references skipped (old vs. fresh objects,
+        two different fresh objects)."""
+        ro = self.fresh_offset(r)
+        r_old = ro is None and self.is_old_term(r)
+        cur = arr
+        while z3.is_app(cur) and cur.decl().kind() == z3.Z3_OP_STORE:
+            idx = cur.arg(1)
+            if idx.eq(r):
+                return z3.simplify(cur.arg(2))
+            io = self.fresh_offset(idx)
+            if (io is not None and (r_old or (ro is not None and ro != io))) or \
+                    (ro is not None and io is None and self.is_old_term(idx)):
+                cur = cur.arg(0)
+                continue
+            break
+        return z3.simplify(cur[r])
+
     def heap_seg(self, r, T):
         """Snapshot of a heap list as an iteration segment."""
-        return ('heap', r, T, z3.simplify(self.st.L_el[r]), z3.simplify(self.st.L_len[r]))
+        return ('heap', r, T, self.peel(self.st.L_el, r), self.peel(self.st.L_len, r))
 
     def concretize(self, segs):
         """Small-scope mode (refutation search only): a symbolic-length segment is split into the
@@ -1013,7 +1047,8 @@ class Interp:
 
     def dict_seg(self, kind, r, T):
         st = self.st
-        return (kind, r, T, st.D_key[r], st.D_val[r], st.D_has[r], st.D_n[r])
+        return (kind, r, T, self.peel(st.D_key, r), self.peel(st.D_val, r), self.peel(st.D_has, r),
+                self.peel(st.D_n, r))
 
     def ctx_args(self, c):
         ctx = list(c.ctx)[-3:]
@@ -1289,7 +1324,7 @@ class Interp:
             return mk_str(st_opaque_str(self, x))
         return mk_str(py_str(self.box(x)))
 
-    def with_assumption(self, cond, thunk):
+    def with_assumption(self, cond, thunk, check=False):
         """Evaluate thunk() under a temporary hypothesis.  Afterwards the hypothesis and the facts
         derived under it are retracted; branch decisions taken meanwhile stay (they partition the
         path space whatever the hypothesis)."""
@@ -1297,8 +1332,13 @@ class Interp:
         n0 = len(st.pc)
         conds = cond if isinstance(cond, list) else [cond]
         for c1 in conds:
-            if z3.is_false(z3.simplify(c1)):
+            c1s = z3.simplify(c1)
+            if z3.is_false(c1s):
                 raise Infeasible()
+            if z3.simplify(z3.Not(c1s)).get_id() in st.pc_ids:
+                raise Infeasible()
+        if check and not self.feasible(z3.And(*conds) if len(conds) > 1 else conds[0]):
+            raise Infeasible()
         for c1 in conds:
             st.assume(c1)
         cond = z3.And(*conds) if len(conds) > 1 else conds[0]
@@ -1348,6 +1388,11 @@ class Interp:
                         t = self.with_assumption(list(hyp), one)
                     except Infeasible:
                         break
+                    except PyRaise:
+                        # raises only if this operand is reached
+                        if self.decide(z3.And(*hyp) if len(hyp) > 1 else hyp[0]):
+                            raise
+                        break
                 else:
                     t = one()
                 acc = t if acc is None else (z3.And(acc, t) if is_and else z3.Or(acc, t))
@@ -1383,14 +1428,24 @@ class Interp:
             if z3.is_false(c):
                 return self.ev(node.orelse, fr)
             a = b = None
+            # an exception while evaluating a branch under its hypothesis is an exception of the
+            # whole expression only if the hypothesis holds: decide it, then re-raise or drop the branch
             try:
-                a = self.with_assumption(c, lambda: self.ev(node.body, fr))
+                a = self.with_assumption(c, lambda: self.ev(node.body, fr), check=True)
             except Infeasible:
                 pass
+            except PyRaise:
+                if self.decide(c):
+                    raise
             try:
-                b = self.with_assumption(z3.Not(c), lambda: self.ev(node.orelse, fr))
+                b = self.with_assumption(z3.Not(c), lambda: self.ev(node.orelse, fr), check=True)
             except Infeasible:
                 pass
+            except PyRaise:
+                if self.decide(z3.Not(c)):
+                    raise
+            if a is None and b is None:
+                raise Infeasible()
             if a is None:
                 return b
             if b is None:
@@ -1561,6 +1616,8 @@ class Interp:
     def equal(self, a: SV, b: SV):
         """`a == b`"""
         ka, kb = a.k, b.k
+        if ka == kb and a.e is not None and b.e is not None and a.e.eq(b.e) and ka != 'float':
+            return z3.BoolVal(True)
         if ka == 'tuple' and kb == 'tuple':
             if len(a.py) != len(b.py):
                 return z3.BoolVal(False)
@@ -2671,9 +2728,14 @@ class Interp:
                 raises.append(p)
             else:
                 raise Unsupported('comprehension body exits abnormally')
+        cond_parts = []
+        noraise = None
         if raises:
             self.comp_raises(K, length, raises, seg)
-        cond_parts = []
+            noraise = z3.Not(z3.Or(*[self.path_cond(p) for p in raises]))
+            # from here on no element raises: the raising cases cannot occur, so they may be counted
+            # on either side of the filter; counting them in keeps the filter condition canonical
+            cond_parts.extend(self.path_cond(p) for p in raises)
         val_cases = []
         for p in oks:
             flt, val = p['out'][1]
@@ -2683,6 +2745,10 @@ class Interp:
             cond_parts.append(c)
             val_cases.append((self.path_cond(p), val))
         cond = z3.simplify(z3.Or(*cond_parts)) if cond_parts else z3.BoolVal(False)
+        if oks and all(z3.is_true(z3.simplify(p['out'][1][0])) for p in oks):
+            # no path filters anything out: the path conditions only partition the (well-typed,
+            # non-raising) elements, so every element passes
+            cond = z3.BoolVal(True)
         val = self.merge_values(val_cases) if val_cases else NONE
         # what was learnt about the generic element (typing, callee postconditions) holds for
         # every element of the segment
@@ -2691,7 +2757,10 @@ class Interp:
             if p['facts']:
                 rng = z3.And(0 <= K, K < length, *p['dec'])
                 st.fact(self.qf(True, K, z3.Implies(rng, z3.And(*p['facts'][1:])), pats) if len(p['facts']) > 1 else z3.BoolVal(True))
-        return self.register_comp(seg, K, length, cond, val, kind)
+        c = self.register_comp(seg, K, length, cond, val, kind)
+        if noraise is not None:
+            c.noraise = noraise if K.eq(c.K) else z3.substitute(noraise, (K, c.K))
+        return c
 
     def comp_patterns(self, seg, j):
         k = seg[0]
@@ -2734,7 +2803,8 @@ class Interp:
         st.assume(z3.And(0 <= ks, ks < length))
         st.assume(self.qf(True, j, z3.Implies(z3.And(0 <= j, j < ks), z3.Not(Rj)), pats))
         for ci, cl in enumerate(classes):
-            Rc = z3.Or(*[self.path_cond(p) for p in raises if p['out'][1].exc_cls is cl])
+            # the raising element also has everything that was learnt about it on that path
+            Rc = z3.Or(*[z3.And(self.path_cond(p), *p['facts'][1:]) for p in raises if p['out'][1].exc_cls is cl])
             Rck = z3.substitute(Rc, (K, ks))
             if ci == len(classes) - 1:
                 st.assume(Rck)
@@ -3074,7 +3144,9 @@ class Interp:
                                  self.comp_patterns(c.seg, c.K))
                     if not self.decide(ok):
                         raise PyRaise(TypeError, (), 'join over non-strings')
+                    c0 = c
                     c = self.register_comp(c.seg, c.K, c.length, c.cond, mk_str(Val.sv(c.val.e)), c.kind)
+                    c.noraise = c0.noraise
                     s = ('comp', c)
                 elif c.val.k != 'str':
                     raise PyRaise(TypeError, (), 'join over non-strings')
@@ -3152,6 +3224,7 @@ class Interp:
                 else:
                     raise Unsupported('sum over non-integers')
                 c2 = self.register_comp(c.seg, c.K, c.length, z3.BoolVal(True), mk_int(z3.simplify(term)), 'sum')
+                c2.noraise = c.noraise
                 sm = self.csum(c2)
                 if c.val.k == 'bool':
                     self.st.fact(sm >= 0)
@@ -3187,6 +3260,7 @@ class _SegTuple(Exception):
 
 
 _HQ: Dict[int, Any] = {}
+_OLD: Dict[int, Any] = {}
 
 
 def has_quantifier(e) -> bool:
@@ -3292,6 +3366,7 @@ def st_opaque_str(ip, x):
 class CompResult:   # noqa: F811  (final definition)
     def __init__(self, idx, K, length, cond, val, seg, kind, ctx=()):
         self.ctx = list(ctx)
+        self.noraise = None       # what is known of every element on this path (no element raises)
         self.idx = idx
         self.K = K
         self.length = length
